@@ -267,4 +267,49 @@ theorem extKLoop_spec : ∀ (fuel ek k q : Nat), extKLoop fuel ek k q < ek + fue
       exact ⟨this.1, by omega⟩
     · next hge => exact ⟨by omega, Nat.le_refl _⟩
 
+/-! ### round trips -/
+
+theorem leBytesToNat_append (l : Bytes) (b : Nat) :
+    leBytesToNat (l ++ [b]) = leBytesToNat l + 256 ^ l.length * b := by
+  induction l with
+  | nil => simp [leBytesToNat]
+  | cons a t ih =>
+    simp only [List.cons_append, leBytesToNat, ih, List.length_cons, Nat.pow_succ]
+    rw [Nat.mul_add, Nat.add_assoc]
+    congr 2
+    rw [Nat.mul_comm (256 ^ t.length) 256, Nat.mul_assoc]
+
+theorem beToNat_cons (b : Nat) (t : Bytes) : beToNat (b :: t) = b * 256 ^ t.length + beToNat t := by
+  unfold beToNat
+  rw [List.reverse_cons, leBytesToNat_append, List.length_reverse, Nat.mul_comm]
+  omega
+
+/-- The first byte of the 48-byte big-endian encoding of a canonical coordinate has its three
+flag bits clear. -/
+theorem natToBe48_head_lt (x : Nat) (hx : x < fpP) : ∃ b t, natToBe 48 x = b :: t ∧ b < 32 ∧ t.length = 47 := by
+  have hl := natToBe_length 48 x
+  match h : natToBe 48 x, hl with
+  | b :: t, hl =>
+    refine ⟨b, t, rfl, ?_, by simpa using hl⟩
+    have h256 : x < 256 ^ 48 := Nat.lt_trans hx (by decide)
+    have hv := beToNat_natToBe 48 x h256
+    rw [h, beToNat_cons] at hv
+    have htl : t.length = 47 := by simpa using hl
+    rw [htl] at hv
+    have : fpP < 32 * 256 ^ 47 := by decide
+    by_cases hb : b < 32
+    · exact hb
+    · exfalso
+      have : 32 * 256 ^ 47 ≤ b * 256 ^ 47 := Nat.mul_le_mul_right _ (by omega)
+      omega
+
+
+theorem decodeBools_encode (l : List Bool) (r : Bytes) :
+    decodeBools l.length (l.map (fun b => if b then 1 else 0) ++ r) = .ok (l, r) := by
+  induction l with
+  | nil => simp [decodeBools]
+  | cons b t ih =>
+    cases b <;> simp [decodeBools, decodeBool, ih]
+
+
 end MidnightZK.C16
